@@ -13,24 +13,6 @@ from eng_generic import DiffEngine
 import snapshots
 
 MAX_XML_BYTES = 400000
-SWITCH = "VERIF_C08_EXCLUDE_REORDER_DEFECT"      # =1: only for hwloc trees WITHOUT fix 5facd58: do not judge that defect class
-SWITCH_MERGE = "VERIF_C08_INCLUDE_MERGE_SETS_DEFECT"  # =1: judge the merge-complete-sets class too (the check then reports it)
-KNOWN = {"defect": 0, "tainted": 0, "merge": 0}
-
-
-def classify(op, c, m):
-    """Defect class "reorder without reconnect" (found by this engine, fixed in /repo by 5facd58; Hw/Props/C08.lean
-    C08_reorder_without_removal_reachable): on an unfixed tree a successful restrict that removes no object but changes the
-    order of a children list leaves children[]/sibling_rank/prev_sibling stale.  By default every call is judged.  Only with
-    VERIF_C08_EXCLUDE_REORDER_DEFECT=1 the driver tags a DISAGREEING call of that class KNOWN-DEFECT and disagreeing later
-    calls on the same topology TAINTED (return/errno still compared); those are counted, not judged."""
-    for tag, key in ((" KNOWN-DEFECT-reorder-without-reconnect", "defect"), (" TAINTED-by-reorder-without-reconnect", "tainted"),
-                     (" KNOWN-DEFECT-merge-complete-sets", "merge")):
-        if m.endswith(tag) and m[:-len(tag)] == c:
-            KNOWN[key] += 1
-            return "benign"
-    return "diff"
-
 
 class RestrictEngine(DiffEngine):
     sources = None
@@ -61,9 +43,7 @@ class RestrictEngine(DiffEngine):
         """run the driver on the trace; keep only the per-op answers"""
         raw = mout + ".raw"
         # VERIF_C08_SELFCHECK=1 (development aid, no verdict value): also compare connectLevels(BEFORE tree) with the BEFORE levels
-        args = (["selfcheck"] if os.environ.get("VERIF_C08_SELFCHECK") else []) + \
-               (["exclude-reorder-defect"] if os.environ.get(SWITCH, "0") not in ("", "0") else []) + \
-               (["include-merge-sets-defect"] if os.environ.get(SWITCH_MERGE, "0") not in ("", "0") else [])
+        args = ["selfcheck"] if os.environ.get("VERIF_C08_SELFCHECK") else []
         run_model("restrict", trace, raw, args)
         with open(raw, errors="replace") as f, open(mout, "w") as g:
             for l in f:
@@ -135,7 +115,7 @@ def distinct_key(op, c):
 
 
 ENGINE = RestrictEngine(
-    "restrict", include_c=("topology",), stateful=True, distinct_key=distinct_key, classify=classify,
+    "restrict", include_c=("topology",), stateful=True, distinct_key=distinct_key,
     sizes={"quick": (16, 3000), "thorough": (64, 20000)},
     rule="each case = one hwloc_topology_restrict(set, flags) on the current state of a loaded topology (generated synthetic "
          "strings incl. attached NUMA nodes and memory-side caches, bundled XML files with I/O objects, Misc objects inserted below "
@@ -146,20 +126,7 @@ ENGINE = RestrictEngine(
 
 
 def run_engine(tier, seed):
-    KNOWN["defect"] = KNOWN["tainted"] = KNOWN["merge"] = 0
     res = ENGINE.run_engine(tier, seed)
-    res["known_defect_calls_not_judged"] = dict(KNOWN)
-    if KNOWN["merge"]:
-        res.setdefault("known_hits", []).append(
-            "merge-complete-sets: %d successful restrict calls were followed by a level merge (parent replaced by its single child) "
-            "that left a memory child with a complete cpuset/nodeset not included in its new parent's (C01 clause set-in-parent); "
-            "tree, sets, order and all other clauses were judged, this clause was not (set %s=1 to judge it)" % (KNOWN["merge"], SWITCH_MERGE))
-    if KNOWN["defect"]:
-        res.setdefault("known_hits", [])
-        res["known_hits"] += ["reorder-without-reconnect: %d successful restrict calls removed no object but reordered a children list "
-                             "(children[]/sibling_rank left stale by hwloc; AFTER dump not well-formed); these and %d later calls on the "
-                             "same topologies were compared on return/errno only (%s=1 is set)"
-                             % (KNOWN["defect"], KNOWN["tainted"], SWITCH)]
     dist = res.get("distribution", {})
     res["evaluations_restrict_calls"] = sum(v for k, v in dist.items() if k.startswith("result."))
     return res
